@@ -16,6 +16,8 @@ def run(chk):
         hobl.c02_value(chk, ex)
         hobl.c02_error(chk, ex)
         hobl.c01_terminal_skips(chk, ex, prefix="C02")      # what the replay delivers, as a function of the record
+        if kind == "child":
+            hobl.c01_child_summary_retraverses(chk, ex, "C02.child.summary_rerun_delivers_body_value")
     for kind in ("invoke", "wait"):
         ex = explore(kind)
         handler_preamble(chk, ex, FUNCS[kind])
